@@ -49,6 +49,9 @@ fn main() {
         .ok()
         .and_then(|s| s.parse::<u64>().ok())
         .unwrap_or(0);
+    if std::env::var("PMC_LITE").map(|v| v == "1").unwrap_or(false) {
+        engine::LITE.store(true, std::sync::atomic::Ordering::Relaxed);
+    }
     pmc::subject::silence_panics();
     let known = match engine::load_known_findings() {
         Ok(k) => k,
